@@ -42,14 +42,21 @@ CLASSES = {
     "Molecule": Molecule,
     "ConformerEnsemble": ConformerEnsemble,
 }
-BT = {
-    "Single": BondType.Single,
-    "Double": BondType.Double,
-    "Triple": BondType.Triple,
-    "Aromatic": BondType.Aromatic,
-}
+BT = {m.name: m for m in BondType}  # a bond type is written "Name" or "Name:f_order" (e.g. "FractionalOrder:0.5")
 BT_CYCLE = ["Single", "Double", "Triple", "Aromatic"]
-EL = {"C": Element.C, "N": Element.N, "X": Element.Unknown}
+EL = {"C": Element.C, "N": Element.N, "X": Element.Unknown, "H": Element.H, "F": Element.F, "Cl": Element.Cl, "Br": Element.Br, "I": Element.I, "B": Element.B, "Li": Element.Li}
+SPECIAL_ELEMENTS = ("H", "Cl", "X", "F", "Br", "I")  # monovalent elements and the Unknown placeholder: chemistry must not leak into graph theory
+F_ORDERS = (0.25, 0.5, 1.5, 2.5)
+
+
+def bond_kwargs(bt):
+    name, _, fo = (bt or "Single").partition(":")
+    return {"btype": BT[name], **({"f_order": float(fo)} if fo else {})}
+
+
+def bond_src(bt):
+    name, _, fo = (bt or "Single").partition(":")
+    return f"btype=BondType.{name}" + (f", f_order={float(fo)}" if fo else "")
 # get_substr_indices returns what match yields, re-indexed: the same symptom on both is one finding (reported on match)
 # how molli builds the graph queries on one another (bond.py): a broken lower layer shows in everything above it
 _TRAV = ("connected_atoms", "bonds_with_atom")
@@ -227,7 +234,7 @@ def build(cls_name, n, bond_list, cols=None, btypes=None):
     for a in atoms:
         c.append_atom(a)
     for k, (i, j) in enumerate(bond_list):
-        c.append_bond(Bond(atoms[i], atoms[j], btype=BT[btypes[k]] if btypes else BondType.Single))
+        c.append_bond(Bond(atoms[i], atoms[j], **bond_kwargs(btypes[k] if btypes else None)))
     if cls_name == "Connectivity":
         obj = c
     elif cls_name == "Structure":
@@ -263,8 +270,7 @@ def repro_build(cls_name, n, bond_list, cols=None, btypes=None):
         "for a in atoms: g.append_atom(a)",
     ]
     for k, (i, j) in enumerate(bond_list):
-        bt = btypes[k] if btypes else "Single"
-        s.append(f"g.append_bond(Bond(atoms[{i}], atoms[{j}], btype=BondType.{bt}))")
+        s.append(f"g.append_bond(Bond(atoms[{i}], atoms[{j}], {bond_src(btypes[k] if btypes else None)}))")
     if cls_name == "Structure":
         s.append("g = Structure(g)")
     elif cls_name == "Molecule":
@@ -303,12 +309,14 @@ def graph_class(adj, comp):
     return "cyclic" if has_cycle_in_component(adj, comp) else "acyclic"
 
 
-def check_graph(ctx, agg, cls_name, n, bond_list, btypes, forms, obj=None, sfx="", hist=None):
+def check_graph(ctx, agg, cls_name, n, bond_list, btypes, forms, obj=None, sfx="", hist=None, cols=None, bonds_class="common"):
     """all queries of part G on one molli object; returns the observation digest.
     obj/sfx/hist: history dimension - the queries run on an EXISTING object after an in-place edit; n and bond_list
     are then the object's current state and every operation name carries the suffix `:history[<edit>]`"""
     if obj is None:
-        obj = build(cls_name, n, bond_list, None, btypes)
+        obj = build(cls_name, n, bond_list, cols, btypes)
+    labels = "H/halogen/Unknown-atoms" if cols and not set(cols) <= {"C"} else ("plain" if bonds_class == "common" else bonds_class)
+    common = {"class": cls_name, "labels": labels}
     atoms = list(obj.atoms)
     bonds = list(obj.bonds)
     pos = {id(a): i for i, a in enumerate(atoms)}
@@ -320,9 +328,9 @@ def check_graph(ctx, agg, cls_name, n, bond_list, btypes, forms, obj=None, sfx="
     def viol(op, attrs, symptom, what, query):
         op = op + sfx
         if hist is None:
-            case = {"kind": "graph", "op": op, "symptom": symptom, "cls": cls_name, "n": n, "bond_list": [list(x) for x in bond_list], "btypes": btypes, "forms": list(forms), "query": query}
-            rep = repro_build(cls_name, n, bond_list, None, btypes) + [f"print({query})"]
-            agg.fail(op, symptom, attrs, f"{what} [{cls_name}, {n} atoms, bonds {bond_list}]", case, "\n".join(rep))
+            case = {"kind": "graph", "op": op, "symptom": symptom, "cls": cls_name, "n": n, "bond_list": [list(x) for x in bond_list], "btypes": btypes, "forms": list(forms), "query": query, "cols": list(cols) if cols else None, "bonds_class": bonds_class}
+            rep = repro_build(cls_name, n, bond_list, cols, btypes) + [f"print({query})"]
+            agg.fail(op, symptom, attrs, f"{what} [{cls_name}, {n} atoms{' ' + '-'.join(cols) if cols else ''}, bonds {bond_list}{' types ' + str(btypes) if bonds_class != 'common' else ''}]", case, "\n".join(rep))
         else:
             case = dict(hist["case"], op=op, symptom=symptom, query=query)
             rep = hist["repro"] + [f"print({query})"]
@@ -339,8 +347,8 @@ def check_graph(ctx, agg, cls_name, n, bond_list, btypes, forms, obj=None, sfx="
         comp = set(dist)
         expected = comp - {s}
         for form in forms:
-            gcls = {"class": cls_name, "component": graph_class(adj, comp), "start": form}
-            acls = {"class": cls_name, "atom": form}
+            gcls = dict(common, component=graph_class(adj, comp), start=form)
+            acls = dict(common, atom=form)
             for _op in ("yield_bfsd", "yield_bfs"):
                 agg.tick(_op + sfx, gcls)
             if adj[s]:
@@ -431,7 +439,7 @@ def check_graph(ctx, agg, cls_name, n, bond_list, btypes, forms, obj=None, sfx="
                 viol("n_bonds_with_atom", acls, f"raised-{type(e).__name__}", f"n_bonds_with_atom({s}) raised {type(e).__name__}: {e}", f"g.n_bonds_with_atom({a_repr})")
 
     # ---- ring membership ----------------------------------------------------------------------
-    rcls = {"class": cls_name}
+    rcls = dict(common)
     for k, b in enumerate(bonds):
         i, j = bond_list[k]
         bridge = is_bridge(n, edges, (i, j))
@@ -540,6 +548,66 @@ def run_deep_part(ctx, agg, part):
                 ctx.count(evaluations=1, traces=1)
             ctx.count(states=1)
             ctx.nontrivial(("deep", name, perm_kind))
+
+
+def element_assignments(n, seed, thorough):
+    """element labellings that put monovalent elements / Unknown on nodes of every position (interior ones included)"""
+    out = []
+    for E in SPECIAL_ELEMENTS:
+        full = E in ("H", "Cl", "X") and n <= 4
+        for sub in range(1, 1 << n):
+            k = bin(sub).count("1")
+            if full or k == 1 or k == n:
+                out.append(tuple(E if sub >> i & 1 else "C" for i in range(n)))
+    # mixed: hydrides / halides bridging other elements
+    if n >= 3:
+        out.append(tuple(("B", "H", "B", "H", "Li", "Cl")[(i + seed) % 6] for i in range(n)))
+        out.append(tuple(("F", "H", "Cl", "X", "I", "Br")[(i + seed) % 6] for i in range(n)))
+    return out
+
+
+def run_elements_part(ctx, agg, part):
+    """graph theory must not depend on the element labels: every graph x element assignments (Connectivity, plus the ensemble on a rotation)"""
+    n, lo, hi = part["n"], part["lo"], part["hi"]
+    for mask in range(lo, hi):
+        ed = edges_of(n, mask)
+        if not ed:
+            continue
+        for k, cols in enumerate(element_assignments(n, ctx.seed, ctx.thorough)):
+            cls_name = ("Connectivity", "ConformerEnsemble", "Connectivity", "Molecule", "Structure")[(k + mask + ctx.seed) % 5]
+            form = ("atom", "index", "atom", "label")[(k + mask) % 4]
+            check_graph(ctx, agg, cls_name, n, ed, None, (form,), cols=cols)
+            ctx.count(evaluations=1, traces=1, states=1)
+        ctx.nontrivial(("el", n, mask))
+    if part.get("deep"):
+        for name, n2, ed in deep_shapes():
+            for E in SPECIAL_ELEMENTS:
+                for pos_ in (0, 1, n2 // 2):
+                    cols = tuple(E if i == pos_ else "C" for i in range(n2))
+                    check_graph(ctx, agg, "Connectivity", n2, ed, None, ("atom",), cols=cols)
+                    ctx.count(evaluations=1, traces=1, states=1)
+                check_graph(ctx, agg, "Connectivity", n2, ed, None, ("atom",), cols=tuple(E if i % 2 else "C" for i in range(n2)))
+                ctx.count(evaluations=1, traces=1, states=1)
+
+
+BOND_SHAPES = (("path3", 3, [(0, 1), (1, 2)]), ("star4", 4, [(0, 1), (0, 2), (0, 3)]), ("triangle", 3, [(0, 1), (1, 2), (0, 2)]), ("ring4", 4, [(0, 1), (1, 2), (2, 3), (0, 3)]))
+
+
+def run_bondtypes_part(ctx, agg, part):
+    """every BondType member with its data field f_order on the bonds of the queried atom: bonded_valence == sum of Bond.order"""
+    kk = 0
+    for name, n, ed in BOND_SHAPES:
+        for member in BondType:
+            for fo in F_ORDERS:
+                bt = f"{member.name}:{fo}"
+                layouts = [[bt if k == pos_ else BT_CYCLE[(k + ctx.seed) % 4] for k in range(len(ed))] for pos_ in range(len(ed))] + [[bt] * len(ed)]
+                for bts in layouts:
+                    kk += 1
+                    cls_name = ("Connectivity", "Molecule", "ConformerEnsemble", "Structure")[(kk + ctx.seed) % 4]
+                    form = ("atom", "index", "label")[kk % 3]
+                    check_graph(ctx, agg, cls_name, n, ed, bts, (form,), bonds_class="every-BondType-member-with-f_order")
+                    ctx.count(evaluations=1, traces=1, states=1)
+        ctx.nontrivial(("bt", name))
 
 
 def run_graph_part(ctx, agg, part):
@@ -976,7 +1044,8 @@ def run(ctx):
         "the start, or true distance). The sequences of yield_bfs and yield_bfsd are not required to coincide (two breadth-first orders may differ)",
         "two traversal generators of one object may be alive at the same time (and other queries may run between the next() calls of a traversal): each yields what it yields alone",
         "generators are consumed with list(...) first and inspected afterwards; the dicts / lists yielded by match / get_substr_indices must be distinct objects",
-        "bonded_valence is compared with the sum of Bond.order over the object's bond list (bond types Single/Double/Triple/Aromatic, exactly representable)",
+        "bonded_valence is compared with the sum of Bond.order over the object's bond list (every BondType member, FractionalOrder with f_order in 0.25/0.5/1.5/2.5: exactly representable)",
+        "graph-theoretic answers do not depend on element labels: the same oracles run with H, F, Cl, Br, I and Unknown atoms on nodes of every degree",
         "embeddings are compared as sets: a repeated yield of the same embedding is not counted as a violation; automorphic images are distinct embeddings",
         "matching: Unknown appears only in patterns (the text does not say what an Unknown target atom matches); one bond type on all bonds of "
         "both sides (Single everywhere; Double and Aromatic on the class representatives), since the text does not speak about bond-type compatibility",
@@ -1006,6 +1075,16 @@ def run(ctx):
     if only and not only.startswith("G"):
         parts = parts[:1]
     run_forked(ctx, agg, [(f"graphs n={p['n']} [{p['lo']},{p['hi']})", run_graph_part, p) for p in parts] + [("deep shapes", run_deep_part, {})], nproc, 800)
+    eparts = []
+    for n in range(2, (5 if thorough else 4) + 1):
+        total = 1 << len(pairs(n))
+        step = max(1, total // (32 if n == 5 else (8 if n == 4 else 1)))
+        eparts += [{"n": n, "lo": lo, "hi": min(total, lo + step)} for lo in range(0, total, step)]
+    eparts[0]["deep"] = True
+    if not only:
+        run_forked(ctx, agg, [(f"elements n={p['n']} [{p['lo']},{p['hi']})", run_elements_part, p) for p in eparts] + [("bond types", run_bondtypes_part, {})], nproc, 800)
+    ctx.bound["G_element_labellings"] = f"every graph with >= 1 bond on 2..{5 if thorough else 4} atoms x assignments of {SPECIAL_ELEMENTS} to every subset of nodes (H, Cl, Unknown; <= 4 atoms) or to each single node and to all nodes, plus two mixed assignments; deep shapes with one such atom at 3 positions and alternating"
+    ctx.bound["G_bond_types"] = f"{[s[0] for s in BOND_SHAPES]} x every BondType member x f_order in {F_ORDERS} on each single bond and on all bonds"
     ctx.bound["G_deep_shapes"] = [f"{name} ({n} atoms)" for name, n, _ in deep_shapes()]
     ctx.bound["G_atoms_max"] = nmax
     ctx.bound["G_graphs"] = sum(1 << len(pairs(n)) for n in range(1, nmax + 1))
@@ -1165,7 +1244,7 @@ def replay(ctx, case):
         pn, pm, pc = case["pattern"]
         match_history_case(ctx, agg, (tn, tm, tuple(tc)), (pn, pm, tuple(pc)), case["bt"], case["edit"], case["k"], (case["api"],))
     elif case["kind"] == "graph":
-        check_graph(ctx, agg, case["cls"], case["n"], [tuple(x) for x in case["bond_list"]], case["btypes"], tuple(case["forms"]))
+        check_graph(ctx, agg, case["cls"], case["n"], [tuple(x) for x in case["bond_list"]], case["btypes"], tuple(case["forms"]), cols=case.get("cols"), bonds_class=case.get("bonds_class", "common"))
     else:
         tn, tm, tc = case["target"]
         pn, pm, pc = case["pattern"]
